@@ -283,6 +283,13 @@ Proof.
   - rewrite Hb in H. destruct (pclass_into S v (item_cty (lf_ty f))); [discriminate|reflexivity].
   - destruct (if bytes_eqb s (lf_name g) then _ else _); [discriminate|]. apply IH; assumption.
 Qed.
+Lemma snorm_n_ref_stop S f n : (forall a, sitem S n <> Some (INewType a)) -> snorm_n S (Datatypes.S f) (TyRef n) = TyRef n.
+Proof.
+  intros H. cbn [snorm_n]. destruct (sitem S n) as [[]|] eqn:E; try reflexivity. exfalso. exact (H _ eq_refl).
+Qed.
+Lemma snorm_ref_stop S n : (forall a, sitem S n <> Some (INewType a)) -> snorm S (TyRef n) = TyRef n.
+Proof. intros H. exact (snorm_n_ref_stop S (31 + length (ls_items S)) n H). Qed.
+
 Section Main.
   Variable parse_f64 : list byte -> option Z.
   Variable S : lschema.
@@ -383,25 +390,64 @@ Section Main.
         injection Hv as <-; cbn; unfold item; rewrite Ei; cbn; rewrite wrap_id by (lia || exact Eb); eexists; reflexivity.
   Qed.
 
+  Lemma ty_eqb_refl a : ty_eqb a a = true.
+  Proof. induction a; cbn; auto; try (rewrite IHa1, IHa2; reflexivity). apply Nat.eqb_refl. Qed.
+
   Lemma good_const c : good (LConst c).
   Proof.
     intros t ty v Hrel Hv Hp. cbn [lit_value] in Hv.
     destruct (nth_error (ls_consts S) c) as [[ct lc]|] eqn:Ec; [|discriminate].
-    destruct (ty_eqb _ _); [|discriminate].
     cbn [pclass_into] in Hp. cbn [lit_into_ty].
     destruct (ident_ty_of_const S c) as [it|] eqn:Eit; [|discriminate].
     unfold ident_into_ty.
     destruct (cty_eqb it ty) eqn:Eeq.
     - apply cty_eqb_eq in Eeq. subst it.
-      assert (Hs : const_simple S c = true).
+      assert (Hs : const_simple S c = true /\ erase ct = erase t).
       { unfold const_simple. rewrite Ec, Eit. destruct Hrel as [->|[-> Hs]].
-        - rewrite (ident_eq_item _ _ _ _ _ Ec Eit), cty_eqb_refl. reflexivity.
-        - rewrite (ident_str _ _ _ _ Ec Eit). apply Bool.orb_true_r. }
+        - rewrite (ident_eq_item _ _ _ _ _ Ec Eit), cty_eqb_refl. split; reflexivity.
+        - pose proof (ident_str _ _ _ _ Ec Eit) as Hct. rewrite Hct. split; [apply Bool.orb_true_r|].
+          destruct ct; try discriminate; destruct t; try discriminate; reflexivity. }
+      destruct Hs as [Hs He]. rewrite He, ty_eqb_refl in Hv.
       rewrite (HC _ _ Hs Hv). eexists; reflexivity.
-    - cbn [orb] in Hp. destruct it; try discriminate. destruct ty; try discriminate.
-      assert (Hs : const_simple S c = true).
-      { unfold const_simple. rewrite Ec, Eit, (ident_str _ _ _ _ Ec Eit). apply Bool.orb_true_r. }
-      cbn. rewrite (HC _ _ Hs Hv). eexists; reflexivity.
+    - cbn [orb] in Hp.
+      destruct (is_str_cty it && is_faststr_cty ty) eqn:Esf.
+      + destruct it; try discriminate. destruct ty; try discriminate.
+        pose proof (ident_str _ _ _ _ Ec Eit) as Hct.
+        assert (Hs : const_simple S c = true).
+        { unfold const_simple. rewrite Ec, Eit, Hct. apply Bool.orb_true_r. }
+        assert (He : erase ct = erase t).
+        { destruct Hrel as [Hrel|[Hrel _]]; [|discriminate].
+          destruct ct; try discriminate; destruct t; try discriminate; reflexivity. }
+        rewrite He, ty_eqb_refl in Hv. cbn. rewrite (HC _ _ Hs Hv). eexists; reflexivity.
+      + cbn [orb] in Hp.
+        destruct (ckind S it) as [ik|] eqn:Eik; [|discriminate]. destruct ik; try discriminate.
+        destruct (is_int_cty ty) eqn:Eint; [|discriminate].
+        (* the const's CodegenTy is an enum Adt: it is the field CodegenTy of its own type *)
+        assert (Hs : const_simple S c = true).
+        { unfold const_simple. rewrite Ec, Eit.
+          unfold ident_ty_of_const in Eit. rewrite Ec in Eit. injection Eit as Eit.
+          destruct ct; cbn in Eit; subst it; cbn in Eik; try discriminate. cbn [item_cty]. rewrite cty_eqb_refl. reflexivity. }
+        (* ct is a path to an enum / union item, t an integer type *)
+        assert (Hct : exists n, ct = RPath n /\ it = CAdt n /\ (forall a, sitem S n <> Some (INewType a))).
+        { unfold ident_ty_of_const in Eit. rewrite Ec in Eit. injection Eit as Eit.
+          destruct ct; cbn in Eit; subst it; cbn in Eik; try discriminate.
+          exists n. split; [reflexivity|]. split; [reflexivity|]. intros a Ha. unfold sitem in Ha. unfold item in Eik.
+          rewrite Ha in Eik. discriminate. }
+        destruct Hct as (n & -> & -> & Hnn).
+        destruct Hrel as [->|[-> _]]; [|discriminate].
+        assert (Ht : snorm S (erase t) = erase t /\ sresolve S (erase t) = erase t /\
+                     (erase t = TyI8 \/ erase t = TyI16 \/ erase t = TyI32 \/ erase t = TyI64)).
+        { destruct t; try discriminate; (split; [reflexivity|split; [reflexivity|]]); auto. }
+        destruct Ht as (Hn1 & Hr1 & Hty).
+        cbn [erase] in Hv. rewrite (snorm_ref_stop S n Hnn), Hn1, Hr1 in Hv.
+        assert (Hne : ty_eqb (TyRef n) (erase t) = false) by (destruct Hty as [E | [E | [E | E]]]; rewrite E; reflexivity).
+        rewrite Hne in Hv.
+        destruct (cv c) as [[]|] eqn:Ecv; try discriminate.
+        destruct (sitem S n) as [[]|]; try discriminate.
+        rewrite (HC _ _ Hs Ecv).
+        destruct t; try discriminate; cbn [erase int_at] in Hv;
+          match type of Hv with (if ?b then _ else _) = _ => destruct b eqn:Eb; try discriminate end;
+          injection Hv as <-; cbn; rewrite wrap_id by (lia || exact Eb); eexists; reflexivity.
   Qed.
 
   Lemma list_ok els : Forall good els -> forall a vs,
